@@ -33,7 +33,9 @@ LEVEL_TEXT = ('Lean 4 theorems, for all input fields/offsets, samplings, tilt sh
               'the Fraunhofer sum of Wavefront.field of the input (propagateDft_common_shift; propagateDft_common_real_shift with the split derived by np.fix: window centred at trunc(shift), value at g − shift). '
               'The call on a wavefront of any plane type (propagateDftTyped: _propagate_ptype as regenerated in Gen.codePropagate, placed by the regenerated statement positions '
               'Gen.dftPtypeStmt / Gen.dftMaskGuardStmt): pupil -> image and image -> pupil run the SAME propagateDftCall with the plane type flipped (both_directions_same_call), '
-              'a wavefront without plane type is refused with TypeError before the mask guard, whatever the mask (untyped_refused_before_mask_guard).')
+              'a wavefront without plane type is refused with TypeError before the mask guard, whatever the mask (untyped_refused_before_mask_guard). '
+              'The split of each field\'s shift (fix_shift = np.fix(shift), subpx_shift = shift - fix_shift) and the arguments of field.shift(...) are regenerated '
+              '(Gen.dftShiftSplit over abstract rounding operations, Gen.dftShiftArgs) and shift_split_is_generated proves the model\'s tfieldOfShift is that split with np.fix = truncation.')
 LEVEL_NOTE = ('Partial: trunc on floats enters as the class operation TruncLike.trunc (Float truncation in the driver, floor/ceil by sign at R); '
               'the two are tied by the differential check of every split and by a probe of 8 adversarial doubles per case (integers +-1 ulp, halves, '
               '+-0.0, subnormals, up to 2**52) compared exactly with np.fix. oversample also scales the shift, which is C04\'s Field.shift. '
